@@ -79,8 +79,10 @@ class Run(object):
             o['detail'] = detail
         self.obligations.append(o)
         if verdict is False:
-            self.findings.append(Finding(self.prop, rid, file, func, slot or what, line,
-                                         message or what, path))
+            f_ = Finding(self.prop, rid, file, func, slot or what, line, message or what, path)
+            # "something is missing from this function" (reported at the function itself) vs. "this construct is wrong"
+            f_.absence = node is None or node is getattr(unit, 'node', object())
+            self.findings.append(f_)
         elif verdict is None:
             self.undecided.append(dict(rule=rid, where=o['where'], what=(message or what)))
         return verdict
@@ -91,8 +93,8 @@ class Run(object):
     # ------------------------------------------------------------- finish
     def settle(self):
         """A rule that lost an anchor or fell below an instance floor in this run did not recognise the code it judges: what it
-        would report as a violation is then not asserted but handed on as *undecided* (exit 2), together with the reason.
-        (Only a rule that recognised every instance it was confirmed on may say VIOLATION.)"""
+        would report as *missing* from a function ("no X in f", reported at f itself) is then not asserted but handed on as
+        undecided (exit 2), together with the reason.  A finding that points at a specific wrong construct stands."""
         def base(r):
             return set([r] + r.split('/'))
         lost = set()
@@ -104,7 +106,7 @@ class Run(object):
         keep = []
         seen = set()
         for f in self.findings:
-            if base(f.rule) & lost:
+            if base(f.rule) & lost and (getattr(f, 'absence', True) or os.environ.get('TXSA_DEMOTE_ALL')):
                 if f.key not in seen:
                     seen.add(f.key)
                     self.undecided.append(dict(rule=f.rule, where='%s:%d' % (f.file, f.line),
